@@ -3033,6 +3033,8 @@ fn space(decls: &[VarDecl]) -> u64 {
 }
 
 struct Gen<'a> {
+    /// no `FT::MulI` nodes in the float term being generated
+    no_mul: bool,
     r: &'a mut Rng,
     decls: Vec<VarDecl>,
     mal: Option<Mal>,
@@ -3479,7 +3481,7 @@ impl<'a> Gen<'a> {
     }
     fn ft(&mut self, depth: u32, no_half: bool) -> FT {
         if depth > 0 && self.r.chance(2, 5) {
-            if !no_half && self.r.chance(1, 4) {
+            if !no_half && !self.no_mul && self.r.chance(1, 4) {
                 // (a product with an integer: quarters stay quarters; not under `round`, whose ties it could create)
                 let kid = self.ft(depth - 1, no_half);
                 let t = if self.r.chance(1, 2) { Term::V(self.var()) } else { Term::K(self.r.range(-3, 4) as i32) };
@@ -3521,6 +3523,9 @@ impl<'a> Gen<'a> {
             None
         };
         let no_half = matches!(conv, Some((Conv::Round, ..)));
+        // (the product propagator leaves a slack of a few steps on its operands: next to the
+        // discontinuities of floor/ceil/round at the integers every answer would be arguable)
+        self.no_mul = conv.is_some();
         let mut f = self.ft(2, no_half);
         // without a conversion a bare variable or constant constrains nothing
         for _ in 0..20 {
@@ -3778,7 +3783,7 @@ fn gen_case_once(r: &mut Rng) -> Case {
         decls[i] = Gen::decl(r, true);
     }
     let mal = if r.chance(1, 7) { Some(*r.pick(&[Mal::LinLen, Mal::Bounds, Mal::EmptyMinMax, Mal::ZeroDivisor, Mal::ZeroDivisor, Mal::ElemIndex, Mal::Arity, Mal::ElemIndex, Mal::Ragged])) } else { None };
-    let mut g = Gen { r, decls, mal: None };
+    let mut g = Gen { r, decls, mal: None, no_mul: false };
     let mut cons = vec![];
     if let Some(m) = mal {
         g.mal = mal;
@@ -4006,7 +4011,9 @@ fn run_case(out: &mut Out, case: &Case, r: &mut Rng, scratch: &[VarId]) {
             } else {
                 check_call(out, line, case, &truth, &c, Call::Solve, &mut tg);
                 let (a, b) = (summary(&c, Call::Solve), summary(&primary[0], Call::Solve));
-                if a != b {
+                // (where the tolerant reading of a float conversion admits more than the exact one, both
+                // orders only have to give an admissible answer)
+                if a != b && !(tg.may.is_some() && tg.passes(&c, Call::Solve) && tg.passes(&primary[0], Call::Solve)) {
                     let mut t = tg.tag(&c, Call::Solve);
                     if t == "-" {
                         t = tg.tag(&primary[0], Call::Solve);
